@@ -185,6 +185,9 @@ class Mode:
         s = max(abs(a), abs(b), abs(scale) if scale is not None else 0.0)
         return abs(a - b) <= tol * s + 1e-300
 
+    def tol_term(self):
+        return TOLV if self.symbolic else self.tol
+
     def eq(self, a, b):
         a, b = self.t(a), self.t(b)
         return (a == b)
@@ -208,14 +211,14 @@ class Mode:
         if self.symbolic:
             f = self._f(formula)
             if isinstance(f, z3.ExprRef):
-                f1 = z3.substitute(f, (TOLV, core.realval(self.tol)))
+                f1 = core.subst_const(f, TOLV, core.realval(self.tol))
             else:
                 f1 = f
             c = Ctx.cur
             r = c.prove(f1, label, timeout_ms=timeout_ms, info={"key": key, "info": info})
             if r == "sat" and isinstance(f, z3.ExprRef):
                 # prefer a counterexample that violates the property by a clear margin
-                f2 = z3.substitute(f, (TOLV, core.realval(ROBUST_TOL)))
+                f2 = core.subst_const(f, TOLV, core.realval(ROBUST_TOL))
                 r2, m2 = core.solve(c.pc + [z3.Not(f2)], timeout_ms)
                 if r2 == "sat":
                     c.obligations[-1]["model"] = m2
